@@ -21,7 +21,9 @@ VARIABLES
   \* @type: Int -> Int;
   v,
   \* @type: Int -> Int;
-  w
+  w,
+  \* @type: Int -> Int;
+  p          \* a re-listing of the teams: position i of the re-listed game holds team p[i]
 
 Idx == 1..N
 
@@ -58,11 +60,44 @@ PipelineRank(u, i) == RunIdx(u, Pos(u, i))
 
 SameOrder == \A i, j \in Idx : (v[i] < v[j]) <=> (w[i] < w[j])
 
-Init == v \in [Idx -> Int] /\ w \in [Idx -> Int]
-Next == UNCHANGED <<v, w>>
+Init == v \in [Idx -> Int] /\ w \in [Idx -> Int] /\ p \in [Idx -> Idx]
+Next == UNCHANGED <<v, w, p>>
 
 PosIsPermutation == \A k \in Idx : \E i \in Idx : Pos(v, i) = k
 PipelineIsRule   == \A i \in Idx : PipelineRank(v, i) = CompRank(v, i)
 OrderOnly        == SameOrder => \A i \in Idx : PipelineRank(v, i) = PipelineRank(w, i)
 Inv == PosIsPermutation /\ PipelineIsRule /\ OrderOnly
+
+\* ---- C02 at the design level: nobody is dropped, duplicated or moved.  The result for input position i is what the
+\* update left at sorted position Pos(i); that is team i's own row exactly when Pos is injective.
+PosInjective == \A i, j \in Idx : Pos(v, i) = Pos(v, j) => i = j
+\* @type: (Int -> Int, Int) => Int;
+TeamAt(u, k) == CHOOSE j \in Idx : Pos(u, j) = k          \* the team sorted to position k
+UnwindRestores == \A i \in Idx : TeamAt(v, Pos(v, i)) = i
+
+\* ---- the ladder of partial pairing (C07's "symmetric neighbour relation", C05's "weakly so under partial pairing")
+\* @type: (Int -> Int, Int, Int) => Bool;
+Neighbour(u, i, q) == Pos(u, q) = Pos(u, i) + 1 \/ Pos(u, q) + 1 = Pos(u, i)
+LadderSymmetric == \A i, q \in Idx : Neighbour(v, i, q) <=> Neighbour(v, q, i)
+\* neighbours are adjacent in the outcome: no third team lies strictly between them
+LadderAdjacent  == \A i, q \in Idx : Neighbour(v, i, q) => ~\E r \in Idx : (v[i] < v[r] /\ v[r] < v[q]) \/ (v[q] < v[r] /\ v[r] < v[i])
+\* every team but the two ends has two neighbours, the ends one (N >= 2)
+LadderDegree    == \A i \in Idx : Cardinality({q \in Idx : Neighbour(v, i, q)}) = (IF Pos(v, i) = 1 \/ Pos(v, i) = N THEN 1 ELSE 2)
+
+\* ---- C04 at the design level: re-listing the teams (values alongside) moves nothing in the sorted order, provided mutually
+\* tied teams keep their relative order; the competition rank needs no proviso
+IsPerm       == \A k \in Idx : \E i \in Idx : p[i] = k
+\* @type: Int -> Int;
+Relisted     == [i \in Idx |-> v[p[i]]]
+KeepsTieOrder == \A i, j \in Idx : (i < j /\ v[p[i]] = v[p[j]]) => p[i] < p[j]
+SortEquivariant == (IsPerm /\ KeepsTieOrder) => \A i \in Idx : Pos(Relisted, i) = Pos(v, p[i])
+RankEquivariant == IsPerm => \A i \in Idx : CompRank(Relisted, i) = CompRank(v, p[i])
+\* and without the proviso only tied teams can change places
+TiesOnlyMove == IsPerm => \A i \in Idx : v[TeamAt(v, Pos(Relisted, i))] = v[p[i]]
+
+\* negative control (must be refuted): without the proviso the sorted order is NOT preserved - which is why C04 states it
+SortEquivariantUnconditional == IsPerm => \A i \in Idx : Pos(Relisted, i) = Pos(v, p[i])
+
+Inv2 == PosInjective /\ UnwindRestores /\ LadderSymmetric /\ LadderAdjacent /\ LadderDegree
+Inv3 == SortEquivariant /\ RankEquivariant /\ TiesOnlyMove
 =============================================================================
